@@ -346,6 +346,27 @@ func enumMutants(root *jmut.Node, from, to int, fn func(name string, n *jmut.Nod
 				}
 			}
 		case jmut.Obj:
+			// the document root: the root references it does not carry yet
+			if len(p) == 1 && p[0].Key == "doc" {
+				for _, add := range []struct {
+					key  string
+					vals []string
+					arr  bool
+				}{{"$regime", c14alts().regimes, false}, {"$addons", c14alts().addons, true}, {"$tags", []string{"simplified", "reverse-charge", "customer-rates", "self-billed", "export"}, true}} {
+					if orig.Get(add.key) != nil {
+						continue
+					}
+					for _, v := range add.vals {
+						d := root.Clone()
+						if add.arr {
+							d.At(p).Set(add.key, jmut.Ar(jmut.S(v)))
+						} else {
+							d.At(p).Set(add.key, jmut.S(v))
+						}
+						fn(fmt.Sprintf("%s:add %s=%s", p.String(), add.key, v), d)
+					}
+				}
+			}
 			// duplicate a member (the parser sees the key twice)
 			if len(orig.M) > 0 {
 				d := root.Clone()
